@@ -787,6 +787,17 @@ class Interp:
         ra, rb = loader.is_repo_class(ta), loader.is_repo_class(tb)
         if ra or rb:
             d, rd = _CMP_DUNDER[op]
+            if not ra and not is_sym(a) and not isinstance(b, ta):
+                # CPython asks the left operand first (unless the right one is a subclass instance):
+                # e.g. a z3 term compared with a repo wrapper is z3's own comparison
+                m = getattr(ta, d, None)
+                if m is not None:
+                    try:
+                        r = m(a, b)
+                    except _ENGINE:
+                        raise
+                    if r is not NotImplemented:
+                        return r
             if ra:
                 f, k = mro_lookup(ta, d)
                 if f is not _MISSING and k is not object and f is not None:
@@ -936,6 +947,9 @@ class Interp:
     def super_attr(self, sp, name):
         obj = sp.obj
         start = obj if isinstance(obj, type) else type(obj)
+        if isinstance(obj, type) and sp.cls not in start.__mro__ and sp.cls in type(obj).__mro__:
+            # super() inside a metaclass method: obj is a class, an instance of the metaclass
+            start = type(obj)
         mro = start.__mro__
         idx = mro.index(sp.cls) + 1
         for k in mro[idx:]:
